@@ -36,8 +36,22 @@ func MatchFunctionsByTopology(oldResults, newResults []FingerprintResult, thresh
 	matchedOld := make(map[string]bool)
 	matchedNew := make(map[string]bool)
 
+	// Iterate names in sorted order: the order of the report entries, and which of several
+	// equally similar candidates get paired, must not depend on map iteration order.
+	oldNames := make([]string, 0, len(oldByName))
+	for name := range oldByName {
+		oldNames = append(oldNames, name)
+	}
+	sort.Strings(oldNames)
+	newNames := make([]string, 0, len(newByName))
+	for name := range newByName {
+		newNames = append(newNames, name)
+	}
+	sort.Strings(newNames)
+
 	// Phase 1: Direct matches by Name
-	for name, oldR := range oldByName {
+	for _, name := range oldNames {
+		oldR := oldByName[name]
 		if newR, ok := newByName[name]; ok {
 			oldFn := oldR.GetSSAFunction()
 			newFn := newR.GetSSAFunction()
@@ -71,14 +85,14 @@ func MatchFunctionsByTopology(oldResults, newResults []FingerprintResult, thresh
 	var unmatchedOld []FingerprintResult
 	var unmatchedNew []FingerprintResult
 
-	for name, r := range oldByName {
+	for _, name := range oldNames {
 		if !matchedOld[name] {
-			unmatchedOld = append(unmatchedOld, r)
+			unmatchedOld = append(unmatchedOld, oldByName[name])
 		}
 	}
-	for name, r := range newByName {
+	for _, name := range newNames {
 		if !matchedNew[name] {
-			unmatchedNew = append(unmatchedNew, r)
+			unmatchedNew = append(unmatchedNew, newByName[name])
 		}
 	}
 
